@@ -421,3 +421,21 @@ def maybe_moved(rnd, scn, p=0.1):
     if rnd.random() < p:
         scn["device_moved"] = {"dx": rnd.choice([0.0, 0.7, -1.3, 2.5]), "dy": rnd.choice([0.4, -0.9, 1.7])}
     return scn
+
+
+def add_lifecycles(rnd, scn, p_derived=0.08, p_entry=0.12):
+    """Object life cycles every Engine-A workload shares (drawn from their own sub-stream, so the
+    scenario a property's generator produced is left as it is): the Device handed to the solver is
+    derived from the meshed one (copy / deep copy / pickled copy / identity transform + re-mesh), and
+    the run is started through the convenience entry point tdgl.solve() instead of TDGLSolver()."""
+    if isinstance(scn, dict) and isinstance(scn.get("base"), dict):
+        # groups (C11): the life cycle belongs to the physics scenario every member executes
+        add_lifecycles(rnd, scn["base"], p_derived, p_entry)
+        return scn
+    if not isinstance(scn, dict) or scn.get("physics") != "real" or "device" not in scn:
+        return scn
+    if rnd.random() < p_derived and not scn.get("device_history") and not scn.get("device_moved"):
+        scn["device_derived"] = rnd.choice(["copy", "copy+orig-moved", "deepcopy", "pickle", "rotate0", "scale1"])
+    if rnd.random() < p_entry and not scn.get("options_late") and not scn.get("solve_twice"):
+        scn["entry"] = "function"
+    return scn
